@@ -26,7 +26,7 @@ CONSTANTS
   Bad = bad
   Unknown = unk
   MaxNest <- NestC
-  MaxMap = 2
+  MaxMap = 1
 VIEW View
 INVARIANT TypeOK
 INVARIANT HeapUntouched
@@ -40,3 +40,4 @@ INVARIANT SavedIsEntry
 INVARIANT NestedRestore
 INVARIANT ThreadIsolation
 INVARIANT FreshThreadDefaults
+PROPERTY LawsOnEveryStep
